@@ -13,6 +13,8 @@
 # See the License for the specific language governing permissions and
 # limitations under the License.
 
+import re
+import sys
 import typing
 from typing import Optional, Tuple, Any, Type, Dict, Callable, Union
 
@@ -145,7 +147,13 @@ class Instruction(_mixins.DictMixin, _mixins.RegisterMixin, _mixins.CodeMixin):
     @staticmethod
     def _param_repr(value: Any) -> str:
         if isinstance(value, np.ndarray):
-            return "np." + repr(value)
+            # NOTE: The default `repr` rounds the entries to 8 digits and summarizes
+            # large arrays, hence the generated code would not reproduce the array.
+            with np.printoptions(floatmode="unique", threshold=sys.maxsize):
+                array_string = repr(value)
+
+            # NOTE: NumPy omits the namespace of the dtype, e.g., `dtype=complex64`.
+            return "np." + re.sub(r"dtype=(\w+)\)$", r"dtype=np.\1)", array_string)
 
         return value
 
